@@ -458,6 +458,8 @@ def reasm_corr(ctx, scale=1, frac=1.0, oracle=True):
         add("reasm.late-duplicates", g.late_dup_case(rng), "latedup")
     for case in malformed_cases(ctx, sz(1500, 20000)):
         add("reasm.malformed", case, "malformed", malformed=True)
+    for _ in range(sz(12, 200)):         # duplicates captured > 300 segments after the original
+        add("reasm.late-duplicates", g.far_dup_case(rng), "fardup")
 
     lines, spans = [], []
     for _p, _c, sched, _o in batches:
